@@ -49,6 +49,7 @@ REQUIRED = ["op_get_subtree", "op_node_subtree", "op_to_subtree", "op_cut_enter"
             "op_cut_type", "op_cut_order", "op_cut_tip", "op_neurites", "op_dendrites",
             "neurites_consumed_with_extractions_in_between", "op_to_sub_tree_older_name",
             "operations_under_custom_column_names", "trees_with_64_bit_labels",
+            "callback_nodes_kept_and_read_later",
             "transform_instance_reused", "numpy_scalar_node_ids", "removals_as_iterator_or_set",
             "mappings_checked", "mapping_container_reused", "transform_reused_after_aborted_call",
             "zero_length_tip_branches_at_threshold_zero", "trees_derived_by_the_library_from_a_used_tree", "tip_exact_threshold_cases", "exhaustive_subsets",
@@ -233,16 +234,23 @@ def _op_cut_enter(ctx, case, spec, tree):
     def pred(tag, depth):  # value threaded from the parent: depth
         return tag != int(tags[0]) and _h(tag, depth, salt) % mod == 0
 
-    calls = []
+    calls, handles = [], []
 
     def enter(n, pv):
         d = 0 if pv is None else pv + 1
         t = int(n["tag"])
         calls.append((t, pv))
+        handles.append((n, t))  # (a callback may keep the node it is given, e.g. to compare later)
         return d, pred(t, d)
 
     out = cut_tree(tree, enter=enter)
     ctx.count("op_cut_enter")
+    for n_, t_ in handles:
+        if int(n_["tag"]) != t_:
+            return ctx.violation("callback-node-changed",
+                                 f"cut_tree(enter): the node handed to the callback for node tag "
+                                 f"{t_} later reads as node tag {int(n_['tag'])}", case)
+    ctx.count("callback_nodes_kept_and_read_later", len(handles))
     depth = topo.depth_of(pid)
     flagged = [i for i in range(len(pid)) if pred(int(tags[i]), int(depth[i]))]
     gone = _closure(ch, flagged)
